@@ -44,14 +44,14 @@ type C01 struct {
 	Noise       []string   `json:"noise"`
 	// SlowEcho: the device takes SlowEchoUS (more than half of the operation timeout, less than
 	// all of it) before it starts echoing command number SlowEchoAt
-	SlowEchoAt int            `json:"slow_echo_at,omitempty"`
-	SlowEchoUS int64          `json:"slow_echo_us,omitempty"`
-	NoisePct   int            `json:"noise_pct"`
+	SlowEchoAt int   `json:"slow_echo_at,omitempty"`
+	SlowEchoUS int64 `json:"slow_echo_us,omitempty"`
+	NoisePct   int   `json:"noise_pct"`
 	// Wrap > 0: the device's terminal wraps the echoed input line at this width (see peer.CLI.WrapWidth)
-	Wrap int `json:"wrap,omitempty"`
-	NL         string         `json:"nl"`
-	DevSeed    uint64         `json:"dev_seed"`
-	Net        simnet.NetPlan `json:"net"`
+	Wrap    int            `json:"wrap,omitempty"`
+	NL      string         `json:"nl"`
+	DevSeed uint64         `json:"dev_seed"`
+	Net     simnet.NetPlan `json:"net"`
 	// CutEnum: this base scenario is followed by its cut enumeration (one sub-run per read boundary
 	// position up to CutTo, the stream length its own run measured)
 	CutEnum bool `json:"cut_enum,omitempty"`
